@@ -65,8 +65,10 @@ def judge(results, rep, key_prefix, name_of):
     nq, undecided, bounded = 0, [], []
     problems = []
 
-    for idx, r in enumerate(results):
+    for idx0, r in enumerate(results):
         nm = name_of(r)
+        # core configurations must be decided completely; the first one always is core
+        idx = 0 if (idx0 == 0 or (r.get("cfg") or {}).get("core")) else 1
         for name, q in r["queries"].items():
             nq += 1
             v, exp = q["verdict"], q["expected"]
